@@ -117,7 +117,22 @@ def build(seed):
         filemap[s] = f"gsub{sx}_{s[-1]}{len(s)}.f90" if rng.random() < 0.7 else filemap[subs[s]["ancestor"]]
     if prog:
         filemap[prog["name"]] = f"gprog{sx}.f90"
-    model = {"mods": mods, "uses": uses, "types": types, "procs": procs, "subs": subs, "prog": prog, "meta": meta, "filemap": filemap, "shape": shape}
+    # internal functions (no internal subroutines beside them) that call module procedures; visible only with proc_internals
+    internals = {}
+    proc_internals = rng.random() < 0.5
+    for p in plist:
+        if rng.random() < 0.25:
+            m = procs[p]["mod"]
+            visible = [q for q in plist if q != p and (procs[q]["mod"] == m or procs[q]["mod"] in uses[m])]
+            internals[f"inf_{p}"] = {"host": p, "calls": set(q for q in visible if rng.random() < 0.5)}
+    # a USE that occurs only inside the body of an explicit (non-generic) interface: a dependency between the files, no module-use edge
+    iface_uses = {}
+    for j, m in enumerate(mods):
+        cand = [u for u in mods[:j] if u not in uses[m]]
+        if cand and rng.random() < 0.3:
+            iface_uses[m] = rng.choice(cand)
+    model = {"mods": mods, "uses": uses, "types": types, "procs": procs, "subs": subs, "prog": prog, "meta": meta, "filemap": filemap, "shape": shape,
+             "iface_uses": iface_uses, "internals": internals, "proc_internals": proc_internals}
     return model
 
 
@@ -147,14 +162,25 @@ def render(model):
                 L.append(f"type({c}) :: c{ci}_{c}")
             L.append("integer :: payload")
             L.append(f"end type {t}")
+        if m in model.get("iface_uses", {}):
+            L += ["interface", f"subroutine ext_{m}(x)", f"use {model['iface_uses'][m]}", "integer :: x", f"end subroutine ext_{m}", "end interface"]
         L.append("contains")
         for p, pd in model["procs"].items():
             if pd["mod"] != m:
                 continue
             L.append(("recursive " if p in pd["calls"] else "") + f"subroutine {p}()")
             L += docs(p)
+            mine = sorted(n for n, d in model.get("internals", {}).items() if d["host"] == p)
+            if mine:
+                L.append("integer :: kk")
             for q in sorted(pd["calls"]):
                 L.append(f"call {q}()")
+            for n in mine:
+                L.append(f"kk = {n}()")
+            if mine:
+                L.append("contains")
+            for n in mine:
+                L += [f"integer function {n}()", f"!! doc of {n}"] + [f"call {q}()" for q in sorted(model["internals"][n]["calls"])] + [f"{n} = 1", f"end function {n}"]
             L.append(f"end subroutine {p}")
         L.append(f"end module {m}")
         units[m] = L
@@ -250,6 +276,17 @@ def expected_graphs(model, project_limits):
     for p, pd in procs.items():
         for q in pd["calls"]:
             call_edges.add((pid(p), pid(q)))
+    internals = model.get("internals", {}) if model.get("proc_internals") else {}
+    iid = lambda n: f"none~{n}"  # noqa: E731  (an internal procedure has no directory of its own)
+    for n, d in internals.items():
+        call_edges.add((pid(d["host"]), iid(n)))
+        for q in d["calls"]:
+            call_edges.add((iid(n), pid(q)))
+    if not model.get("proc_internals"):
+        # a call of a procedure that is not displayed is shown as a call of what that procedure calls
+        for n, d in model.get("internals", {}).items():
+            for q in d["calls"]:
+                call_edges.add((pid(d["host"]), pid(q)))
     if prog:
         for q in prog["calls"]:
             call_edges.add((node_of[prog["name"]], pid(q)))
@@ -304,6 +341,8 @@ def expected_graphs(model, project_limits):
     c_roots = {pid(p) for p in procs if graph_on(p)}
     if prog and prog["calls"]:
         c_roots.add(node_of[prog["name"]])
+    c_roots |= {f"interface~ext_{m}" for m in model.get("iface_uses", {})}
+    c_roots |= {iid(n) for n, d in internals.items() if graph_on(d["host"])}  # (registered through their host) visible internal procedures are roots of the project call graph  # an interface body is a procedure of the project (no calls)
     ce = {(a, b) for (a, b) in call_edges if a in c_roots}
     exp["project|call"] = (c_roots | {b for (a, b) in ce}, ce, off)
     # file graph
@@ -314,6 +353,9 @@ def expected_graphs(model, project_limits):
         fb = fm[b.split("~", 1)[1]]
         if fa != fb:
             fedges.add((f"sourcefile~{fa}", f"sourcefile~{fb}"))
+    for m, u in model.get("iface_uses", {}).items():
+        if fm[m] != fm[u]:
+            fedges.add((f"sourcefile~{fm[m]}", f"sourcefile~{fm[u]}"))
     exp["project|file_edges"] = fedges
     exp["files"] = sorted(set(fm.values()))
     return exp, {"use": use_edges, "anc": anc_edges, "type": type_edges, "call": call_edges}
@@ -446,7 +488,7 @@ def case(seed):
             open(os.path.join(src, n), "w").write(t)
         proj_limits = (10000, 1000000000)
         opts = {"project": f"P{seed}", "src_dir": "./src", "output_dir": "./doc", "preprocess": False, "parallel": 0, "graph": True, "search": False,
-                "display": ["public", "private", "protected"], "show_proc_parent": rng.random() < 0.5, "coloured_edges": rng.random() < 0.3, "quiet": True, "incl_src": True}
+                "display": ["public", "private", "protected"], "proc_internals": bool(model.get("proc_internals")), "show_proc_parent": rng.random() < 0.5, "coloured_edges": rng.random() < 0.3, "quiet": True, "incl_src": True}
         if rng.random() < 0.3:
             opts["graph_maxdepth"] = rng.choice([1, 2, 3])
             proj_limits = (opts["graph_maxdepth"], proj_limits[1])
@@ -566,7 +608,7 @@ def main():
         "graph_maxdepth / graph_maxnodes on random entities; project graph_maxdepth sometimes; show_proc_parent / coloured_edges random. "
         "Every per-entity and project-wide graph object's DOT body is compared with the model. Non-trivial: some relation has >=3 edges; "
         "distinct by sources + configuration.",
-        assumptions=["display includes private so no procedure is skipped as invisible; no type-bound or internal procedures in this workload",
+        assumptions=["display includes private so no procedure is skipped as invisible; no type-bound procedures in this workload; internal functions only as callers",
                      "per-entity graphs follow the hop-wise expansion: a hop that would exceed graph_maxnodes is not added; edges are drawn from expanded nodes only",
                      "layout, colours and labels are not compared"],
     )
